@@ -280,12 +280,19 @@ func (r *Report) Finish(evidencePath string) int {
 // importPremises runs `run` against a scratch report and re-states each obligation it produced (optionally
 // filtered) under `rule` of the current report, so that a property whose guarantee rests on another property's
 // rule carries that rule as its own premise.
+var importDepth int
+
 func importPremises(c *Ctx, rule, prefix, why string, keep func(o *Ob) bool, run func()) int {
 	r := c.R
+	if importDepth > 0 {
+		return 0 // premises of premises are not restated (and two properties may rest on each other)
+	}
+	importDepth++
 	sub := &Report{Rules: map[string]string{}, known: map[string]string{}, knownSeen: map[string]bool{}, Extra: map[string]interface{}{}, c: c}
 	c.R = sub
 	run()
 	c.R = r
+	importDepth--
 	n := 0
 	for _, o := range sub.Obs {
 		if keep != nil && !keep(o) {
@@ -325,4 +332,12 @@ func importWriteDiscipline(c *Ctx, rule, rel string) {
 	}
 	importPremises(c, rule, "write-error premise ", "a write error that is dropped turns truncated output into a successful render", inPkg, func() { runC15(c) })
 	importPremises(c, rule, "own-buffer premise ", "Render must return what this render wrote, nothing left over from another", func(o *Ob) bool { return o.Rule == "R10.3" && inPkg(o) }, func() { runC10(c) })
+}
+
+// importPropertyStore: a renderer that resolves a column setting (alignment, skipable) relies on a get returning
+// the value most recently set for that key on that owner (C12's R12.1/R12.2 on the property chain).
+func importPropertyStore(c *Ctx, rule string) {
+	importPremises(c, rule, "property-store premise ", "a stale or lost setting changes how the column is rendered", func(o *Ob) bool {
+		return o.Rule == "R12.1" || o.Rule == "R12.2"
+	}, func() { runC12(c) })
 }
